@@ -363,7 +363,7 @@ class Session:
         return [[float(v) for v in self.x0]] + [[xi + ci * self.p * (tk - self.t0) for xi, ci in zip(self.x0, C)] for tk in times]
 
 
-def check_histories(repo, res, rule="R-FRESH"):
+def check_histories(repo, res, rule="R-FRESH", tier="quick"):
     """histories [solve, assignments..., solve] on one model object: every solve returns the solution of the problem as it is *now*
     (current initial state, initial time and parameter values), whatever was solved or stored before"""
     import itertools
@@ -382,6 +382,8 @@ def check_histories(repo, res, rule="R-FRESH"):
     fn0 = repo.resolve_method(cls, "solve_determ") or repo.resolve_method(cls, "integrate")
     bad, n = [], 0
     mids = [()] + [(a,) for a in assigns] + [(a, b) for a in assigns for b in assigns if a.split("(")[0] != b.split("(")[0]]
+    if tier == "thorough":
+        mids += [(a, b, c_) for a in assigns for b in assigns for c_ in assigns if len({a.split("(")[0], b.split("(")[0], c_.split("(")[0]}) == 3]
     for first, mid, last, same_grid in itertools.product(entries, mids, entries, (True, False)):
         if repo.resolve_method(cls, first) is None or repo.resolve_method(cls, last) is None:
             continue
@@ -414,7 +416,7 @@ def check_histories(repo, res, rule="R-FRESH"):
         elif not _close(out, want):
             got = out.tolist() if isinstance(out, NumArr) else out
             bad.append("%s: the last solve returns %s; the problem as it stands (x0=%s, t0=%s, parameter=%s) has the solution %s" % (label, got, ses.x0, ses.t0, ses.p, want))
-    res.check(not bad, rule, fn0, "histories", "%d histories [solve, up to two assignments of initial state / time / values / parameters, solve again on the same or another grid] over "
+    res.check(not bad, rule, fn0, "histories", "%d histories [solve, up to two (thorough tier: three) assignments of initial state / time / values / parameters, solve again on the same or another grid] over "
               "solve_determ / integrate / integrate2: every solve returns the solution of the current problem" % n, "; ".join(bad[:2]), node=fn0.node if fn0 else None)
     return n
 
